@@ -549,7 +549,7 @@ func (e *Engine) sigCase(p *sim.Plan, st *sim.Step, res *sim.RunResult, keep boo
 	}
 
 	outs, pullErr := cw.victimPull("hub1")
-	panics := verifrt.TakePanicsQuiesced()
+	panics := verifrt.TakePanicsQuiesced(cw.goBase)
 	for _, pr := range panics {
 		add("panic", "panic in %s: %s", pr.Site, pr.Value)
 		if os.Getenv("VERIF_DEBUG") != "" {
@@ -684,7 +684,7 @@ func (e *Engine) sigHistoryCase(p *sim.Plan, st *sim.Step, res *sim.RunResult, c
 		return nil, "skipped"
 	}
 	outs, pullErr := cw.victimPull("hub1")
-	panics := verifrt.TakePanicsQuiesced()
+	panics := verifrt.TakePanicsQuiesced(cw.goBase)
 	for _, pr := range panics {
 		add("panic", "panic in %s: %s", pr.Site, pr.Value)
 	}
